@@ -13,6 +13,7 @@ from . import common, schedx
 
 P = "C15"
 
+
 R, S1, S2, GC, AL, PR, L2 = ("read",), ("set", 1), ("set", 2), ("gc",), ("alloc",), ("prim",), ("loop", 2)
 DRIVERS2 = [
     ([R, R], [S1, R]),
@@ -51,11 +52,30 @@ DRIVERS3 = [
 ]
 
 
+# values that are only referenced by an operation in progress while another thread collects: the top-level procedures are compiled natively
+# (no captures), the lambdas are interpreted
+INFLIGHT_PRE = ("(define gbox #f) (define gvec #f) (define (put! v) (set! gbox (box v))) (define (putv! v) (set! gvec (vector v v))) "
+                "(define (mk v) (box (box v))) (define (put2! v) (set! gbox (mk v)))")
+INFLIGHT = [
+    ("inflight/set-box-native || gc", "(let* ((t1 (spawn-native-thread (lambda () (put! 7) (unbox gbox))))) (#%gc-collect) (list (thread-join! t1) (unbox gbox)))", "(lst (i 7) (i 7))"),
+    ("inflight/set-vector-native || gc", "(let* ((t1 (spawn-native-thread (lambda () (putv! 7) (vector-ref gvec 1))))) (#%gc-collect) (list (thread-join! t1) (vector-ref gvec 0)))", "(lst (i 7) (i 7))"),
+    ("inflight/set-nested-native || gc", "(let* ((t1 (spawn-native-thread (lambda () (put2! 7) (unbox (unbox gbox)))))) (#%gc-collect) (list (thread-join! t1) (unbox (unbox gbox))))", "(lst (i 7) (i 7))"),
+    ("inflight/set-box-interpreted || gc", "(let* ((t1 (spawn-native-thread (lambda () (set! gbox (box 7)) (unbox gbox))))) (#%gc-collect) (list (thread-join! t1) (unbox gbox)))", "(lst (i 7) (i 7))"),
+    ("inflight/box-of-box || gc", "(let* ((t1 (spawn-native-thread (lambda () (let ((b (box (box (box 7))))) (unbox (unbox (unbox b)))))))) (#%gc-collect) (list (thread-join! t1)))", "(lst (i 7))"),
+    ("inflight/gc || set-box-native", "(let* ((t1 (spawn-native-thread (lambda () (#%gc-collect) 'a)))) (put! 7) (list (thread-join! t1) (unbox gbox)))", "(lst (sym \"a\") (i 7))"),
+]
+
+
+C15PRE = schedx.PRE + " " + INFLIGHT_PRE
+
+
 def judge(reference):
     def j(val, rep, ex):
         out = []
         for v in rep.get("violations", [])[:1]:
             out.append(("scan-overlap", "thread %d passes %s while its state is being inspected or replaced by another thread" % (v["thread"], v["gate"])))
+        if rep.get("freed_slot_uses", 0) > 0:
+            out.append(("use-of-reclaimed-storage", "a value that was in flight (not on the stack) while another thread collected was reclaimed: %d accesses to a freed slot" % rep["freed_slot_uses"]))
         if rep["outcome"] == "completed" and val is not None:
             if val.startswith("ERR:") or val.startswith("PANIC:"):
                 out.append(("error", val[:140]))
@@ -75,10 +95,15 @@ def root_items(tier):
         items.append((list(d), b3))
     for earlier, d in DRIVERS_PHASED:
         items.append((["phased", list(earlier)] + list(d), b2))
+    for k in range(len(INFLIGHT)):
+        items.append((["inflight", k], b2))
     return items
 
 
 def program_and_reference(threads):
+    if threads and threads[0] == "inflight":
+        name, prog, want = INFLIGHT[threads[1]]
+        return prog, {want}
     if threads and threads[0] == "phased":
         earlier, ths = threads[1], threads[2:]
         return schedx.driver_program_phases(earlier, ths), schedx.reference_outcomes_phases(earlier, ths)
@@ -90,7 +115,7 @@ def program_and_reference(threads):
 def work_root(item):
     threads, bound = item
     prog, _ = program_and_reference(threads)
-    val, rep, ex = schedx.run_schedule(schedx.PRE, prog, [])
+    val, rep, ex = schedx.run_schedule(C15PRE, prog, [])
     if rep is None:
         return (item, None, "no report: exit=%s" % ex)
     kids = schedx.children(rep["points"], 0, bound)
@@ -105,7 +130,7 @@ def work_sub(item):
     for root in todo:
         if root == [] and include_root:
             # the default schedule alone (its alternatives are the other roots)
-            val, rep, ex = schedx.run_schedule(schedx.PRE, prog, [])
+            val, rep, ex = schedx.run_schedule(C15PRE, prog, [])
             res = {"runs": 1, "outcomes": {str(val): 1}, "failures": [([], c, d) for c, d in (judge(ref)(val, rep, ex) if rep else [("machinery", "no report")])], "divergent": 0,
                    "capped": False, "maxpoints": len(rep["points"]) if rep else 0}
             if rep and rep["outcome"] != "completed":
@@ -117,7 +142,7 @@ def work_sub(item):
                 if rep["outcome"] != "completed":
                     cnt["n"] += 1
                 return _j(val, rep, ex)
-            res = schedx.explore_subtree(schedx.PRE, prog, root, bound, judge=jj, maxruns=6000)
+            res = schedx.explore_subtree(C15PRE, prog, root, bound, judge=jj, maxruns=6000)
             tot["deadlocks"] += cnt["n"]
         tot["runs"] += res["runs"]
         for k, v in res["outcomes"].items():
@@ -143,7 +168,7 @@ def main(argv=None):
     items = []
     for (threads, bound), kids, err in roots:
         if err:
-            rep.violation("machinery :: %s :: %s" % (json.dumps(threads), err), {"driver": threads, "error": err}, {"case": {"steps": [schedx.PRE, program_and_reference(threads)[0]]}, "env": None})
+            rep.violation("machinery :: %s :: %s" % (json.dumps(threads), err), {"driver": threads, "error": err}, {"case": {"steps": [C15PRE, program_and_reference(threads)[0]]}, "env": None})
             continue
         parts = common.split_round_robin(kids, 6) or [[]]
         for i, part in enumerate(parts):
@@ -166,7 +191,9 @@ def main(argv=None):
     for key, d in per.items():
         total_runs += d["runs"]
         ths = d["threads"]
-        if ths and ths[0] == "phased":
+        if ths and ths[0] == "inflight":
+            name = INFLIGHT[ths[1]][0]
+        elif ths and ths[0] == "phased":
             name = "after " + " ; ".join(" ".join("/".join(str(x) for x in o) for o in t) or "-" for t in ths[1]) + " => " + " || ".join(" ".join("/".join(str(x) for x in o) for o in t) or "-" for t in ths[2:])
         else:
             name = " || ".join(" ".join("/".join(str(x) for x in o) for o in t) or "-" for t in ths)
@@ -181,10 +208,10 @@ def main(argv=None):
             n = sum(1 for f in d["failures"] if f[1] == cls)
             rep.violation("%s :: threads %s :: %s" % (cls, name, detail if cls != "inconsistent-result" else "a result that no interleaving of the reads and writes produces"),
                           {"driver": d["threads"], "class": cls, "detail": detail, "schedules_failing": n, "schedules_explored": d["runs"], "shortest_choice_prefix": prefix},
-                          {"case": {"steps": [schedx.PRE, {"op": "sched_arm", "choices": prefix, "report_path": "/dev/null"}, program_and_reference(d["threads"])[0], {"op": "sched_report"}]}, "env": None})
+                          {"case": {"steps": [C15PRE, {"op": "sched_arm", "choices": prefix, "report_path": "/dev/null"}, program_and_reference(d["threads"])[0], {"op": "sched_report"}]}, "env": None})
     cov = {"evaluations": total_runs, "distinct_nontrivial": total_runs,
-           "rule": "every schedule with at most 2 preemptions (3-thread drivers: %d) of %d two-thread, %d three-thread and %d phased drivers (threads that exited before the others were spawned; ordering through a channel); a scheduling point is every gate of hook H7 "
-                   "reached by the running thread; each schedule re-executes the driver on a freshly forked engine" % (2 if a.tier == "thorough" else 1, len(DRIVERS2), len(DRIVERS3), len(DRIVERS_PHASED)),
+           "rule": "every schedule with at most 2 preemptions (3-thread drivers: %d) of %d two-thread, %d three-thread, %d phased drivers (threads that exited before the others were spawned; ordering through a channel) and %d in-flight drivers (a freshly allocated value only held by an operation in progress while another thread collects; use-of-reclaimed-slot counter of hook H4); a scheduling point is every gate of hook H7 "
+                   "reached by the running thread; each schedule re-executes the driver on a freshly forked engine" % (2 if a.tier == "thorough" else 1, len(DRIVERS2), len(DRIVERS3), len(DRIVERS_PHASED), len(INFLIGHT)),
            "samples": [schedx.driver_program(list(DRIVERS2[0])), schedx.driver_program(list(DRIVERS3[0])), schedx.driver_program_phases(*[list(x) for x in DRIVERS_PHASED[1]])], "exhaustive": not any(t["capped"] for t in table.values()), "drivers": table}
     return rep.finish("model_checking", cov, assumptions=["interleavings are sequentially consistent at gate granularity: weak-memory reorderings of the relaxed flag accesses are not explored",
                                                            "a thread that does not reach its next gate within 25 ms is treated as blocked in native code"])
